@@ -34,6 +34,18 @@ Definition afull_mismatch (k : acase) : option nat :=
   | None => if msgs_perm cl (ac_cleanup k) then None else Some (length os)
   end.
 
+(* the same, insensitive to the ORDER of the messages inside one step (no property depends on it for axis events: all of them
+   are stated after a processed event) *)
+Definition ostep_permb (a b : ostep) : bool :=
+  msgs_perm (o_midi a) (o_midi b) && Nat.eqb (o_sigs a) (o_sigs b) && (o_oct a =? o_oct b)%Z && (o_semi a =? o_semi b)%Z &&
+  (o_ch a =? o_ch b) && Nat.eqb (o_notes a) (o_notes b) && (o_map a =? o_map b).
+Definition afull_mismatch_perm (k : acase) : option nat :=
+  let '(os, cl) := amodel_trace k in
+  match first_diff ostep_permb 0 os (ac_obs k) with
+  | Some i => Some i
+  | None => if msgs_perm cl (ac_cleanup k) then None else Some (length os)
+  end.
+
 (* view for C06 / C07: the bytes of the axis events only *)
 Fixpoint abs_steps (h : list fev) (obs : list ostep) : list (list msg) :=
   match h, obs with
